@@ -34,7 +34,7 @@ func runC40(c *fw.Ctx) {
 	c.Bound("segments", segs)
 	c.Bound("max_segments", maxSeg)
 	c.Bound("gitfile_contents", gitfiles)
-	c.SetRule("request paths = every sequence of <= max_segments segments joined by '/', with and without a leading '/', x strict on/off, x every gitfile content for the directory 'gf' under the root; loader = the real transport.FilesystemLoader over an mcfs view rooted at /srvroot inside a larger tree that also holds /outside/out.git and /outside/wt/.git (valid repositories); second pass on a real directory (osfs.BoundOS): the same requests plus absolute gitfile targets, prefix-sharing siblings, links inside the root that lead out of it (named directly, through a gitfile, as the .git entry), absolute request paths of the outside repositories - through Load and through the HTTP backend handler (GET <path>/info/refs, percent-decoded path, with and without a Prefix); oracle: the complete mcfs journal of the Load call and of reading references/HEAD/config/objects through the returned storer - no resolved path outside /srvroot may be touched, the returned storer's filesystem root is under /srvroot, and the served repository is one of those inside the root; distinct = (outcome, resolved repository) classes")
+	c.SetRule("request paths = every sequence of <= max_segments segments joined by '/', with and without a leading '/', x strict on/off, x every gitfile content for the directory 'gf' under the root; loader = the real transport.FilesystemLoader over an mcfs view rooted at /srvroot inside a larger tree that also holds /outside/out.git and /outside/wt/.git (valid repositories); second pass on a real directory (osfs.BoundOS): the same requests plus absolute gitfile targets, prefix-sharing siblings, links inside the root that lead out of it (named directly, through a gitfile, as the .git entry), absolute request paths of the outside repositories, repositories inside the root whose objects/info/alternates names an object directory outside it (an object stored only outside must not be served) - through Load and through the HTTP backend handler (GET <path>/info/refs, percent-decoded path, with and without a Prefix); oracle: the complete mcfs journal of the Load call and of reading references/HEAD/config/objects through the returned storer - no resolved path outside /srvroot may be touched, the returned storer's filesystem root is under /srvroot, and the served repository is one of those inside the root; distinct = (outcome, resolved repository) classes")
 	c.Assume("the content of the root directory itself is trusted (no symlinks placed inside it that point outside); mcfs resolves paths like the chroot helpers of billy (lexical confinement) and symlinks without confinement")
 	n, err := mcfs.Conformance(c.Scratch(), 2)
 	c.Must(err, "mcfs/osfs conformance")
@@ -190,7 +190,19 @@ func runC40(c *fw.Ctx) {
 	os.WriteFile(real+"/outside/gitfile", []byte("gitdir: "+real+"/outside/out.git\n"), 0o644)
 	os.Symlink("../../outside/gitfile", real+"/srvroot/gg/.git")
 	realGitfiles = append(realGitfiles, "gitdir: ../link-out\n", "gitdir: ../link-abs\n", "gitdir: ../link-out/../out.git\n")
-	absReqs := []string{real + "/outside/out.git", real + "/srvroot-private/secret.git", real + "/srvroot.git", real + "/srvroot/../outside/out.git",
+	// repositories inside the root that borrow objects from outside it: objects/info/alternates naming the outside
+	// repository's object directory, absolutely and relatively; SECRET is an object stored only outside
+	secretID := ""
+	{
+		gs := c.GitHome().In(real + "/outside/out.git")
+		secretID = gs.MustRunIn([]byte("SECRET stored only outside the root\n"), "hash-object", "-w", "--stdin").S()
+		for name, alt := range map[string]string{"alt-abs.git": real + "/outside/out.git/objects\n", "alt-rel.git": "../../../outside/out.git/objects\n"} {
+			c.Must(base.Dump("/srvroot/repo.git", real+"/srvroot/"+name), "dump")
+			os.MkdirAll(real+"/srvroot/"+name+"/objects/info", 0o755)
+			c.Must(os.WriteFile(real+"/srvroot/"+name+"/objects/info/alternates", []byte(alt), 0o644), "alternates")
+		}
+	}
+	absReqs := []string{"alt-abs.git", "alt-rel.git", real + "/outside/out.git", real + "/srvroot-private/secret.git", real + "/srvroot.git", real + "/srvroot/../outside/out.git",
 		"link-out", "/link-out", "link-abs", "gl", "gl/.git", "gg", "link-out/../../outside/out.git", "repo.git/../link-out"}
 	c.Bound("osfs_extra_requests", absReqs)
 	shortReq := map[string]bool{"gf": true, "/gf": true, "gf/": true, "repo/../gf": true, "repo": true, "repo.git": true, "../outside/out.git": true, "/../outside/out.git": true}
@@ -206,6 +218,14 @@ func runC40(c *fw.Ctx) {
 				}
 				return nil
 			})
+		}
+		if secretID != "" {
+			if _, err := st.EncodedObject(plumbing.AnyObject, plumbing.NewHash(secretID)); err == nil {
+				outside = true // an object that exists only outside the root is served
+			}
+			if st.HasEncodedObject(plumbing.NewHash(secretID)) == nil {
+				outside = true
+			}
 		}
 		if cl, ok := st.(interface{ Close() error }); ok {
 			cl.Close()
